@@ -42,6 +42,11 @@ def classify(r):
     if io == "BUDGET":
         return "excluded-budget", ""
     s = r.get("spec")
+    if r.get("model") is not None and obs(r["model"]).startswith(("TIMEOUT", "CRASH")):
+        # the MODEL did not answer (too slow / died): nothing can be concluded about the implementation from this case
+        return "excluded-model-unavailable", obs(r["model"])
+    if s is not None and s.startswith(("TIMEOUT", "CRASH")):
+        return "excluded-model-unavailable", s
     if r.get("model") and stats(r["model"]).get("limit") == "1" and obs(r["model"]) == io:
         # the machine hit its stack/frame limit (DESIGN 4.3 U7): the definitional semantics has no limits;
         # implementation and machine model agree on where it happens
